@@ -146,11 +146,23 @@ def fieldContentLoop (haveValues order : Bool) : List TV → Bool → Bool → V
   | f :: rest, inHeader, inTrailer =>
     if haveValues && f.value.isEmpty then rej 4 f.tag
     else if inHeader && isHeaderTag f.tag then fieldContentLoop haveValues order rest inHeader inTrailer
-    else if inHeader && !isHeaderTag f.tag then fieldContentLoop haveValues order rest false inTrailer
+    else if inHeader && !isHeaderTag f.tag then fieldContentLoop haveValues order rest false (isTrailerTag f.tag)
     else if !inHeader && isHeaderTag f.tag && order then rej 14 f.tag
     else if isTrailerTag f.tag then fieldContentLoop haveValues order rest inHeader true
     else if inTrailer && !isTrailerTag f.tag && order then rej 14 f.tag
     else fieldContentLoop haveValues order rest inHeader inTrailer
+
+/-- the loop before the `fix:` (a trailer field directly behind the header did not start the trailer) -/
+def fieldContentLoopOrig (haveValues order : Bool) : List TV → Bool → Bool → V Unit
+  | [], _, _ => .ok ()
+  | f :: rest, inHeader, inTrailer =>
+    if haveValues && f.value.isEmpty then rej 4 f.tag
+    else if inHeader && isHeaderTag f.tag then fieldContentLoopOrig haveValues order rest inHeader inTrailer
+    else if inHeader && !isHeaderTag f.tag then fieldContentLoopOrig haveValues order rest false inTrailer
+    else if !inHeader && isHeaderTag f.tag && order then rej 14 f.tag
+    else if isTrailerTag f.tag then fieldContentLoopOrig haveValues order rest inHeader true
+    else if inTrailer && !isTrailerTag f.tag && order then rej 14 f.tag
+    else fieldContentLoopOrig haveValues order rest inHeader inTrailer
 
 /-- validateFieldContent -/
 def validateFieldContent (m : PMsg) (haveValues order : Bool) : V Unit :=
